@@ -240,4 +240,63 @@ pub fn ordering_front_ends(index: &mut Index) {
         }
     }
     let _ = Output::zero();
+    ordering_histories(index);
+}
+
+/// C06, whole call histories (the builder *continues* after a rejected call):
+/// every sequence of <= 4 calls over {"", "a", "ab", "b"} on a MapBuilder
+/// (insert) and on a SetBuilder (insert; a repeat of the last key is a no-op).
+/// Each call's result and payload against the contract, then the finished
+/// content and the recorded key count against the accepted keys.
+fn ordering_histories(index: &mut Index) {
+    let keys: [&[u8]; 4] = [b"", b"a", b"ab", b"b"];
+    for len in 1..=4usize {
+        let total = 4usize.pow(len as u32);
+        for code in 0..total {
+            let mut c = code;
+            let seq: Vec<Vec<u8>> = (0..len).map(|_| { let k = keys[c % 4].to_vec(); c /= 4; k }).collect();
+            for is_set in [false, true] {
+                index.native_checks += 1;
+                // model
+                let mut accepted: Vec<Vec<u8>> = vec![];
+                let mut want: Vec<Outcome> = vec![];
+                for k in &seq {
+                    match accepted.last() {
+                        Some(last) if k == last => want.push(if is_set { Outcome::Ok } else { Outcome::Dup(k.clone()) }),
+                        Some(last) if k < last => want.push(Outcome::Ooo(last.clone(), k.clone())),
+                        _ => { want.push(Outcome::Ok); accepted.push(k.clone()); }
+                    }
+                }
+                let seq2 = seq.clone();
+                let r = std::panic::catch_unwind(move || {
+                    if is_set {
+                        let mut b = fst::SetBuilder::memory();
+                        let got: Vec<Outcome> = seq2.iter().map(|k| outcome(b.insert(k))).collect();
+                        let set = b.into_inner().ok().and_then(|bytes| fst::Set::new(bytes).ok());
+                        let content = set.as_ref().map(|s| s.stream().into_bytes());
+                        (got, content, set.map(|s| s.len()))
+                    } else {
+                        let mut b = MapBuilder::memory();
+                        let got: Vec<Outcome> = seq2.iter().enumerate().map(|(i, k)| outcome(b.insert(k, i as u64 + 1))).collect();
+                        let map = b.into_inner().ok().and_then(|bytes| fst::Map::new(bytes).ok());
+                        let content = map.as_ref().map(|m| m.stream().into_byte_keys());
+                        (got, content, map.map(|m| m.len()))
+                    }
+                });
+                let what = if is_set { "SetBuilder" } else { "MapBuilder" };
+                match r {
+                    Ok((got, content, n)) => {
+                        if got != want {
+                            index.fail(&["C06"], "ordering", &format!("{} history {:?}: results {:?}, contract says {:?}", what, seq, got, want));
+                        } else if content.as_ref() != Some(&accepted) {
+                            index.fail(&["C06"], "ordering", &format!("{} history {:?}: finished content {:?}, accepted were {:?}", what, seq, content, accepted));
+                        } else if n != Some(accepted.len()) {
+                            index.fail(&["C06"], "ordering", &format!("{} history {:?}: len() = {:?} but {} keys were accepted", what, seq, n, accepted.len()));
+                        }
+                    }
+                    Err(_) => index.fail(&["C06"], "ordering", &format!("{} panicked on history {:?}", what, seq)),
+                }
+            }
+        }
+    }
 }
